@@ -160,7 +160,12 @@ def _c06_worker(args):
     out = []
     c = "a"
     content = inst.content[c]
-    for j, (state, call, spelling, algo, sumcase, sizecase) in enumerate(jobs):
+    for j, job in enumerate(jobs):
+        state, call, spelling, algo, sumcase, sizecase = job[:6]
+        addcase = job[6] if len(job) > 6 else "none"
+        # the additional algorithm is not part of the verdict: naming the checksum algorithm,
+        # the store's own algorithm or an unrelated one there must not change it
+        add = {"none": None, "same": spelling, "store": "SHA-256", "other": "md5"}[addcase]
         root = os.path.join(base, "s%d" % j)
         shutil.rmtree(root, ignore_errors=True)
         os.makedirs(root)
@@ -177,10 +182,10 @@ def _c06_worker(args):
         size = {"correct": len(content), "wrong": len(content) + 3, "absent": None}[sizecase]
         alg = spelling if sumcase != "absent" else None
         rec = {"kind": "verdict", "state": state, "call": call, "algo": chars(spelling),
-               "sumcase": sumcase, "sizecase": sizecase}
+               "sumcase": sumcase, "sizecase": sizecase, "add": addcase}
         try:
             if call == "store":
-                store.store_object(inst.pid["p1"], inputs[("c", c)], None, checksum, alg, size)
+                store.store_object(inst.pid["p1"], inputs[("c", c)], add, checksum, alg, size)
             else:
                 om = fhs.ObjectMetadata(None, inst.cid[c], len(content),
                                         {a: hashlib.new(a, content).hexdigest() for a in DEFAULT5})
@@ -221,6 +226,13 @@ def sweep_c06(tier, seed):
                             jobs.append((state, "dii", sp, algo, sumcase, sizecase))
         for sizecase in ("correct", "wrong", "absent"):
             jobs.append((state, "store", "sha256", "sha256", "absent", sizecase))
+        # ... and with an additional algorithm named in the same call
+        for algo, sps in sorted(table.items()):
+            for sp in ([sps[0], sps[-1]] if tier == "quick" else sps):
+                for addcase in ("same", "store", "other"):
+                    for sumcase, sizecase in (("lower", "correct"), ("wrong", "correct"),
+                                              ("upper", "wrong"), ("wrong", "absent")):
+                        jobs.append((state, "store", sp, algo, sumcase, sizecase, addcase))
     base = os.path.join(tlc.scratch_root(), "c06.%d" % os.getpid())
     n = 16
     chunks = [(jobs[i::n], os.path.join(base, "w%d" % i)) for i in range(n)]
